@@ -176,6 +176,25 @@ def run_slice(t, a, b, rev, env=None):
         return {"err": type(ex).__name__}
 
 
+def run_fetch(t, a, b, rev, env=None):
+    """Raw fetch (no clipping by the window)."""
+    try:
+        tl = build(t, env)
+        sm = srcmap_of(t, env)
+        return [obs_event(r, sm) for r in tl.fetch(a, b, reverse=rev)]
+    except (ValueError, TypeError) as ex:
+        return {"err": type(ex).__name__}
+
+
+def run_overlapping(t, p, env=None):
+    try:
+        tl = build(t, env)
+        sm = srcmap_of(t, env)
+        return [obs_event(r, sm) for r in tl.overlapping(p)]
+    except (ValueError, TypeError) as ex:
+        return {"err": type(ex).__name__}
+
+
 # --------------------------------------------------------------------------------------------
 # Coq terms
 
